@@ -238,7 +238,8 @@ Section Selectors.
     if (n =? 0)%Z then Err EVarint
     else
       let r := rnd_new (src_seed sv) in
-      let sorted := sorter cfg in
+      (* groups without subnets are left out of the choice, as in the old clients *)
+      let sorted := sorter (filter (fun g => match nets g with None => false | Some _ => true end) cfg) in
       let tot := fold_left (fun a g => a + weight g) sorted 0 in
       if tot <? 1 then Err EChooser
       else
